@@ -25,10 +25,11 @@ res["worktree_head"] = sh("git rev-parse --short HEAD")[1].strip()
 rc, out = sh(f"git apply {sd}/patch.diff"); res["applies"] = rc == 0
 if rc != 0:
     print(out); print(json.dumps(res)); sys.exit(1)
-rc, out = sh(meta["existing_tests_cmd"].replace("/tmp/mut2-%s" % pid, wt).replace("/tmp/mut-%s" % pid, wt)); res["existing_tests_pass_with_patch"] = rc == 0
+import re as _re0
+rc, out = sh(_re0.sub(r"/tmp/mut\d?-%s(?![-\w])" % pid, wt, meta["existing_tests_cmd"])); res["existing_tests_pass_with_patch"] = rc == 0
 if rc != 0: res["existing_tests_tail"] = out[-1500:]
 demo_dst = meta.get("demo_dst")
-demo_cmd = meta["demo_cmd"]
+demo_cmd = "mkdir -p genapi/tests device/tests cameleon/tests gentl/tests impl/tests && " + meta["demo_cmd"]
 # demo_cmd is expected to copy the demo itself (cp … && cargo test …)
 rc, out = sh(demo_cmd.replace("/tmp/mut-%s-out" % pid, os.path.dirname(sd)) if "/tmp/mut-" in demo_cmd else demo_cmd)
 res["demo_fails_with_patch"] = rc != 0
@@ -55,4 +56,9 @@ res["demo_passes_without_patch"] = rc == 0
 if rc != 0: res["demo_tail"] = out[-1500:]
 clean()
 res["detected"] = all(v["detected"] for v in res["per_seed"].values())
+# a patch that mis-applies (fuzzy context after later commits) shows up here: it does not compile, or
+# the demonstration does not fail with it / pass without it
+res["valid_seed"] = bool(res["existing_tests_pass_with_patch"] and res["demo_fails_with_patch"] and res["demo_passes_without_patch"])
+# a harness that does not even build against the patched tree is not a detection of the change
+res["harness_built"] = "harness build failed" not in out2
 print(json.dumps(res, indent=1))
